@@ -27,7 +27,7 @@ func rulesC18(c *Ctx, r *Report) {
 			continue
 		}
 		nf++
-		ns += len(y.sites)
+		ns += len(y.sites) + len(y.delegs)
 		r.analysed(y.f.name)
 		y.ruleYD1(c, r, "YD1")
 		if yd2Formats[relPkg(y.f.pkg.PkgPath)] {
@@ -45,8 +45,8 @@ func rulesC18(c *Ctx, r *Report) {
 	}
 	have := map[string]bool{}
 	for _, y := range yds {
-		if len(y.sites) > 0 {
-			have[y.f.name] = true
+		if len(y.sites) > 0 || len(y.delegs) > 0 {
+			have[y.f.name] = true // calls the callback itself or hands it to a function / literal that is checked in turn
 		}
 	}
 	for _, w := range want {
